@@ -13,7 +13,7 @@ for r in res:
     if "crash" in r:
         print("CRASH", r["crash"]); continue
     if r["kind"] in ("universe", "lemmas"):
-        bad = [x for x in r["results"] if x["status"] != "proved"]
+        bad = [x for x in r["results"] if x["status"] not in ("proved", "assumed")]
         print(r["kind"], len(r["results"]), "obligations,", len(bad), "not proved")
         for x in bad: print("   ", x)
         continue
